@@ -1,7 +1,7 @@
 (* Proofs/CtorP.v — property C06, part 1: the COO constructor establishes the canonical form
    exactly when its caller's promises hold; the schemas by which call sites justify their
    promises; the csr @ csr kernel breaks the GCXS promise (D8). *)
-From Coq Require Import String ZArith List Bool Lia Sorting.Sorted.
+From Coq Require Import String ZArith List Bool Lia Sorting.Sorted Sorting.Permutation.
 From Verif Require Import Shape COO COOP GCXS Ctor.
 Import ListNotations.
 Open Scope Z_scope.
@@ -591,18 +591,6 @@ Qed.
 
 (* ------------------------------------------------------------------ offset concatenation *)
 
-(* concatenate along axis 0: block i's leading coordinate is offset by the extents before it *)
-Definition offset0 (off : Z) (c : idx) : idx :=
-  match c with [] => [] | i :: t => (i + off) :: t end.
-
-Fixpoint offset_concat (off : Z) (blocks : list (Z * list idx)) : list idx :=
-  match blocks with
-  | [] => []
-  | (d, cs) :: r => map (offset0 off) cs ++ offset_concat (off + d) r
-  end.
-
-Definition total_extent (blocks : list (Z * list idx)) : Z := fold_right (fun b s => fst b + s) 0 blocks.
-
 Lemma offset_concat_bounds tail off blocks c :
   Forall (fun b => 0 <= fst b /\ canon_coords (fst b :: tail) (snd b)) blocks ->
   In c (offset_concat off blocks) ->
@@ -647,7 +635,7 @@ Qed.
    compressed axis flipped *)
 Definition gcxs_2d_transpose {V} (g : gcxs V) : gcxs V :=
   match g_shape g, g_caxes g with
-  | [r; c], [a] => mkGCXS [c; r] [1 - a] (g_data g) (g_indices g) (g_indptr g) (g_fill g)
+  | [r; c], [a] => mkGCXS [c; r] [if a =? 0 then 1 else 0] (g_data g) (g_indices g) (g_indptr g) (g_fill g)
   | _, _ => g
   end.
 
@@ -656,14 +644,14 @@ Theorem schema_SharesArraysOfWf {V} (g : gcxs V) :
 Proof.
   unfold gcxs_2d_transpose. destruct g as [sh ca da ind ptr fl]. simpl.
   destruct sh as [|r [|c [|? ?]]]; auto. destruct ca as [|a [|? ?]]; auto.
-  unfold gcxs_wfb. simpl g_shape. simpl g_caxes. simpl g_data. simpl g_indices. simpl g_indptr.
-  intros H. repeat (apply andb_true_iff in H; destruct H as [H ?]).
-  assert (Ha : a = 0 \/ a = 1).
-  { simpl in *. apply andb_true_iff in H7. destruct H7 as [H7 _]. apply andb_true_iff in H7. lia. }
-  destruct Ha as [-> | ->]; vm_compute (1 - _); unfold row_size, col_size, reordered_shape, axis_order, znth in *;
-    simpl in *; repeat (apply andb_true_iff; split); auto; try lia;
-    repeat match goal with H : (_ && _) = true |- _ => apply andb_true_iff in H; destruct H end;
-    try (apply andb_true_iff; split); auto; try lia.
+  destruct (Z.eq_dec a 0) as [->|N0]; [|destruct (Z.eq_dec a 1) as [->|N1]].
+  - unfold gcxs_wfb, row_size, col_size, reordered_shape, axis_order, zrange, znth, mem_z. cbn.
+    rewrite !andb_true_iff. intuition.
+  - unfold gcxs_wfb, row_size, col_size, reordered_shape, axis_order, zrange, znth, mem_z. cbn.
+    rewrite !andb_true_iff. intuition.
+  - unfold gcxs_wfb. cbn. intros H. exfalso.
+    repeat (apply andb_true_iff in H; destruct H as [H ?]).
+    repeat match goal with H : (_ && _) = true |- _ => apply andb_true_iff in H; destruct H end. lia.
 Qed.
 
 (* ------------------------------------------------------------------ promises are load-bearing *)
@@ -671,15 +659,17 @@ Qed.
 Definition zflags (s d p : bool) : flags := mkFlags s d p.
 Definition zctor := coo_ctor Z Z.eqb Z.add.
 
+Ltac in_range_list := repeat constructor; simpl; lia.
+
 (* sorted=True on unsorted, duplicate-free, in-range coordinates: not canonical *)
 Theorem ctor_promise_needed_proof :
   exists coords data sh fill,
     length data = length coords /\ Forall (in_range sh) coords /\ NoDup coords /\
     canonicalb (zctor (zflags true false false) coords data sh fill) = false.
 Proof.
-  exists [[1]; [0]], [5; 7], [2], 0. repeat split.
-  - repeat constructor.
-  - repeat constructor; simpl; intuition; discriminate.
+  exists [[1]; [0]], [5; 7], [2], 0.
+  split; [reflexivity|]. split; [in_range_list|]. split; [|reflexivity].
+  constructor; [simpl; intros [H|[]]; discriminate|]. constructor; [simpl; tauto|constructor].
 Qed.
 
 (* has_duplicates=False on sorted coordinates with a repeat: not canonical *)
@@ -688,9 +678,9 @@ Theorem ctor_dup_promise_needed_proof :
     length data = length coords /\ Forall (in_range sh) coords /\ StronglySorted lex_le coords /\
     canonicalb (zctor (zflags false false false) coords data sh fill) = false.
 Proof.
-  exists [[1]; [1]], [5; 7], [2], 0. repeat split.
-  - repeat constructor; simpl; lia.
-  - repeat constructor. right. reflexivity.
+  exists [[1]; [1]], [5; 7], [2], 0.
+  split; [reflexivity|]. split; [in_range_list|]. split; [|reflexivity].
+  constructor; [constructor; constructor|]. constructor; [right; reflexivity|constructor].
 Qed.
 
 (* sorted=True (false promise) with has_duplicates=True: only ADJACENT repeats are merged *)
@@ -699,7 +689,8 @@ Theorem ctor_sorted_promise_hides_duplicates :
     length data = length coords /\ Forall (in_range sh) coords /\
     canonicalb (zctor (zflags true true false) coords data sh fill) = false.
 Proof.
-  exists [[1]; [0]; [1]], [5; 7; 9], [2], 0. repeat split. repeat constructor; simpl; lia.
+  exists [[1]; [0]; [1]], [5; 7; 9], [2], 0.
+  split; [reflexivity|]. split; [in_range_list|reflexivity].
 Qed.
 
 (* non-vacuity: an unsorted input with repeats, default flags plus prune *)
@@ -708,9 +699,67 @@ Example ctor_example :
   = mkCOO [2; 2] [[0; 0]; [0; 1]] [3; 7] 0.
 Proof. reflexivity. Qed.
 
-(* ------------------------------------------------------------------ D8: csr @ csr *)
+(* ------------------------------------------------------------------ csr @ csr: rows sorted by the kernel *)
 
-(* a = [[0 1 0 0 0]; [1 0 0 0 1]], b = 5x5 (the campaign's first failing case) *)
+Lemma strictly_increasing_SS l : strictly_increasing l = true <-> StronglySorted Z.lt l.
+Proof.
+  induction l as [|a r IH]; simpl.
+  - split; [constructor|reflexivity].
+  - destruct r as [|b r'].
+    + split; [intros _; constructor; constructor|reflexivity].
+    + rewrite andb_true_iff, Z.ltb_lt, IH. split.
+      * intros [Hab Hs]. constructor; [assumption|].
+        inversion Hs as [|? ? Hs' Hall]; subst. constructor; [assumption|].
+        eapply Forall_impl; [|exact Hall]. intros c Hc. lia.
+      * intros Hs. inversion Hs as [|? ? Hs' Hall]; subst. split; [|assumption].
+        inversion Hall; assumption.
+Qed.
+
+Lemma insert_col_perm x l : Permutation (insert_col x l) (x :: l).
+Proof.
+  induction l as [|y r IH]; simpl; [reflexivity|].
+  destruct (fst x <=? fst y); [reflexivity|].
+  rewrite IH. apply perm_swap.
+Qed.
+
+Lemma sort_row_perm l : Permutation (sort_row l) l.
+Proof.
+  induction l as [|x r IH]; simpl; [reflexivity|].
+  rewrite insert_col_perm. constructor. exact IH.
+Qed.
+
+Lemma insert_col_sorted x l :
+  StronglySorted (fun a b : Z * Z => fst a <= fst b) l ->
+  StronglySorted (fun a b : Z * Z => fst a <= fst b) (insert_col x l).
+Proof.
+  induction 1 as [|y r Hs IH Hall]; simpl; [constructor; constructor|].
+  destruct (Z.leb_spec (fst x) (fst y)).
+  - constructor; [constructor; assumption|]. constructor; [assumption|].
+    eapply Forall_impl; [|exact Hall]. simpl. intros c Hc. lia.
+  - constructor; [assumption|]. apply Forall_forall. intros c Hc.
+    apply (Permutation_in _ (insert_col_perm x r)) in Hc.
+    destruct Hc as [<-|Hc]; [lia|]. rewrite Forall_forall in Hall. auto.
+Qed.
+
+Lemma sort_row_sorted l : StronglySorted (fun a b : Z * Z => fst a <= fst b) (sort_row l).
+Proof. induction l; simpl; [constructor|apply insert_col_sorted; assumption]. Qed.
+
+(* sorting a row whose columns are distinct gives strictly increasing columns *)
+Theorem schema_RowsSortedByKernel (l : list (Z * Z)) :
+  NoDup (map fst l) -> strictly_increasing (map fst (sort_row l)) = true.
+Proof.
+  intros Hnd. apply strictly_increasing_SS.
+  assert (Hnd' : NoDup (map fst (sort_row l))).
+  { eapply Permutation_NoDup; [|exact Hnd]. apply Permutation_map. symmetry. apply sort_row_perm. }
+  pose proof (sort_row_sorted l) as Hs. revert Hnd'. induction Hs as [|a r Hs IH Hall]; intros Hnd'; simpl; constructor.
+  - apply IH. inversion Hnd'; assumption.
+  - inversion Hnd' as [|? ? Hn _]; subst. rewrite Forall_map. rewrite Forall_forall in *.
+    intros b Hb. specialize (Hall b Hb). simpl in Hall.
+    destruct (Z.eq_dec (fst a) (fst b)) as [E|E]; [|lia].
+    exfalso. apply Hn. rewrite E. apply in_map. assumption.
+Qed.
+
+(* the former D8 witness: a = [[0 1 0 0 0]; [1 0 0 0 1]], b = 5x5 *)
 Definition d8_a : gcxs Z := mkGCXS [2; 5] [0] [1; 1; 1] [1; 0; 4] [0; 1; 3] 0.
 Definition d8_b : gcxs Z :=
   mkGCXS [5; 5] [0]
@@ -718,8 +767,8 @@ Definition d8_b : gcxs Z :=
     [3; 4; 0; 1; 3; 4; 0; 3; 4; 0; 1; 2; 0; 1; 2; 3; 4]
     [0; 2; 6; 9; 12; 17] 0.
 
-Theorem dot_site_promise_refuted_proof :
-  exists (a b r : gcxs Z),
-    gcxs_wfb a = true /\ gcxs_wfb b = true /\ g_caxes a = [0] /\ g_caxes b = [0] /\
-    dot_csr_csr a b = Some r /\ gcxs_wfb r = false.
-Proof. exists d8_a, d8_b. eexists. repeat split; vm_compute; reflexivity. Qed.
+Example dot_csr_csr_example :
+  dot_csr_csr d8_a d8_b
+  = mkGCXS [2; 5] [0] [3; 1; 3; 2; -2; 1; -1; 3; -1] [0; 1; 3; 4; 0; 1; 2; 3; 4] [0; 4; 9] 0
+  /\ gcxs_wfb (dot_csr_csr d8_a d8_b) = true.
+Proof. split; vm_compute; reflexivity. Qed.
